@@ -4,6 +4,7 @@
 // with or without an explicit interval.
 use super::*;
 use crate::core::tracking;
+use std::collections::HashMap;
 
 fn vf_cfg(wp: &std::path::Path) -> core::Config {
     for d in ["a", "b", "b/c"] { std::fs::create_dir_all(wp.join(d)).unwrap(); std::fs::write(wp.join(d).join("f"), b"x").unwrap(); }
@@ -22,6 +23,9 @@ async fn vf_checkpoint_store() {
     let records: Vec<(String, Option<HashMap<String, String>>)> = vec![
         ("a".repeat(40), Some(long_pending.clone())), ("b".repeat(40), None), ("c".repeat(7), Some([("x".to_string(), "y".to_string())].into_iter().collect())),
         ("d".repeat(4000), None), ("e".to_string(), None), ("f".repeat(40), Some(long_pending)),
+        // highly compressible: hundreds of pending files with one and the same content checksum under similar paths (empty __init__.py, .gitkeep ..)
+        ("9".repeat(40), Some((0..600).map(|i| (format!("pkg/module{:04}/__init__.py", i), "e3b0c44298fc1c149afbf4c8996fb92427ae41e4649b934ca495991b7852b855".to_string())).collect())),
+        ("0".repeat(64), Some((0..3000).map(|i| (format!("a/{}", i), "0".repeat(64))).collect())),
     ];
     for (k, (id, pending)) in records.iter().enumerate() {
         checked += 1;
@@ -29,10 +33,11 @@ async fn vf_checkpoint_store() {
         cp.id = id.clone();
         cp.pending = pending.clone();
         if let Err(e) = cp.save() { bad += 1; println!("VF-FAIL save #{} of a checkpoint (id of {} bytes, {} pending entries) :: failed: {} (C19)", k, id.len(), pending.as_ref().map(|m| m.len()).unwrap_or(0), e); continue; }
-        match crate::app::checkpoint::handle_checkpoint_show(&cfg, wp).await {
-            Ok(o) => if o.checkpoint.id != *id || o.checkpoint.pending != *pending {
-                bad += 1; println!("VF-FAIL save #{} of a checkpoint (id of {} bytes, {} pending entries) after a record of another size :: show returns id of {} bytes, {} pending entries (C19)", k, id.len(), pending.as_ref().map(|m| m.len()).unwrap_or(0), o.checkpoint.id.len(), o.checkpoint.pending.as_ref().map(|m| m.len()).unwrap_or(0)); },
-            Err(e) => { bad += 1; println!("VF-FAIL save #{} of a checkpoint (id of {} bytes) after a record of another size :: show fails: {} (C19)", k, id.len(), e); }
+        let shown_ok = crate::app::checkpoint::handle_checkpoint_show(&cfg, wp).await.is_ok();
+        match table.open_checkpoint() {
+            Ok(o) => if o.id != *id || o.pending != *pending || !shown_ok {
+                bad += 1; println!("VF-FAIL save #{} of a checkpoint (id of {} bytes, {} pending entries) after a record of another size :: reading it back gives id of {} bytes, {} pending entries (`checkpoint show` ok={}) (C19)", k, id.len(), pending.as_ref().map(|m| m.len()).unwrap_or(0), o.id.len(), o.pending.as_ref().map(|m| m.len()).unwrap_or(0), shown_ok); },
+            Err(e) => { bad += 1; println!("VF-FAIL save #{} of a checkpoint (id of {} bytes, {} pending entries) :: it cannot be read back: {} (`checkpoint show` ok={}) (C19)", k, id.len(), pending.as_ref().map(|m| m.len()).unwrap_or(0), e, shown_ok); }
         }
     }
     // 2. no checkpoint (deleted / out delete --all / never written): show fails, analyze says checkpointed=false + every target
@@ -46,7 +51,7 @@ async fn vf_checkpoint_store() {
             if how != "never written" { let mut cp = t2.new_checkpoint(); cp.id = "0123456789".repeat(4); cp.save().unwrap(); }
             match how {
                 "checkpoint delete" => { crate::app::checkpoint::handle_checkpoint_delete(&cfg2, wp2).await.unwrap(); }
-                "out delete --all" => { crate::app::out::out_delete(cfg2.get_out_path(wp2).to_str().unwrap(), &crate::app::out::OutDeleteInput { all: true }).unwrap(); }
+                "out delete --all" => { crate::app::out::out_delete(&wp2.join(&cfg2.out_dir), &crate::app::out::OutDeleteInput { all: true }).unwrap(); }
                 _ => {}
             }
             let what = format!("no checkpoint ({}), analyze with begin={:?} end={:?}", how, begin, end);
